@@ -218,6 +218,10 @@ fn main() {
             std::io::Read::read_to_string(&mut std::io::stdin(), &mut src).unwrap();
             drop(out);
             // run on a thread with a normal-sized stack: a stack overflow must be observable
+            if let Some(n) = arg(&args, "--builder-sum") {
+                total::run_builder_sum(n.parse().unwrap());
+                std::process::exit(0);
+            }
             if args.iter().any(|a| a == "--thread") {
                 let h = std::thread::Builder::new().stack_size(2 * 1024 * 1024).spawn(move || total::run_one(&src)).unwrap();
                 let _ = h.join();
